@@ -502,6 +502,14 @@ PROPS["C09"]["meta"]["assumptions"] = ["filter_zoom / filter_bbox Operation::get
 	"the coverage pyramid the operations consult is built by the pyramid/box kernels decided by the Kani harnesses of this check (set_zoom_min/max, intersect_geo_bbox, intersect_pyramid, contains_coord)"]
 PROPS["C09"]["meta"]["out"] = ["Operation::build glue (which arguments reach set_zoom_min/max / intersect_geo_bbox) and VPL argument parsing", "tilejson narrowing", "chains of filters (each operation is decided against an arbitrary source)", "the source's own stream/lookup agreement"]
 PROPS["C06"]["harnesses"] = [h for h in PROPS["C06"]["harnesses"] if h.name in ("c06_h1_coverage", "c06_add_border")]
+# geographic box -> tile box (anchor of C06: convert --bbox): the geo harnesses of C15 also run under C06 (round-5 seed C06-r5-2)
+PROPS["C06"]["harnesses"] += [
+	H(f"c15_h12_geo_x_z{z}", CORE, c15g, funcs=["TileBBox::from_geo", "TileCoord2::from_geo"], bounds=f"zoom {z}: every valid west <= east maps to a non-empty tile box that covers it (incl. the antimeridian edges)", sample="see C15", stubs=[LIBM, POW])
+	for z in [0, 3]
+] + [
+	H(f"c15_h13_geo_y_z{z}", CORE, c15g, funcs=["TileBBox::from_geo", "TileCoord2::from_geo"], bounds=f"zoom {z}: every valid south <= north maps to a non-empty tile box", sample="see C15", stubs=[LIBM, POW])
+	for z in [3]
+]
 PROPS["C06"]["meta"]["assumptions"].append("transform consistency: the call sequences of flip_y/swap_xy are extracted from the MIR of new_from_reader, get_tile_data, get_bbox_tile_stream (and its map_coord closure) for each of the 4 flag assignments and compared in z3/cvc5 against each other and the specification; data-dependent early exits before the source is consulted make the result inconclusive")
 PROPS["C06"]["meta"]["out"] += ["payloads on the lookup/stream path (the async reader is not executed; C04 decides the recompression pipeline)", "the requested-pyramid filter on the lookup/stream path (neither path consults it on this tree)"]
 PROPS["C02"]["harnesses"] = [h for h in PROPS["C02"]["harnesses"] if h.name != "c06_h3_stream"]
